@@ -1,7 +1,138 @@
-From OV.C02 Require Import Base Model Spec.
-From Coq Require Import List ZArith.
+(* C02 — device memory behaves like an aliased byte array; misuse raises.
+
+   Vocabulary: Model.step c s o is one C++ statement of a history on the model of occa::memory (cfg
+   `fixed` = /repo with fixes/C02-1..6, `pinned` = the code before them); Spec.s_step is the abstract
+   byte-map specification (slices/casts are views of the same buffer, clones and malloc(src) are new
+   buffers, misuse is ERR and changes nothing).  `ops_ok h` is the guard of DESIGN.md: integer
+   arguments below 2^40 in absolute value and dtype sizes in 1..2^20, so that no 64-bit product or sum
+   in the bound checks wraps; the wrapping region is covered by the `wrapped_*` theorems below. *)
+From Coq Require Import List ZArith Bool Lia.
+From OV.C02 Require Import Base Model Spec Statements Arith Lists Proofs.
 Import ListNotations.
 Local Open Scope Z_scope.
-Example placeholder : run fixed init [OSize 0%nat] = [OKN [0;0;0]].
-Proof. reflexivity. Qed.
-Print Assumptions placeholder.
+
+(* Every read returns what the byte-array specification predicts, every misuse is an error exactly
+   where the specification says so: the whole observation sequence of every history agrees. *)
+Theorem refines_views : forall h : list op, ops_ok h -> run fixed init h = s_run sinit h.
+Proof. intros h H. exact (proj1 (run_refines_gen h init sinit wf_init Rel_init H)). Qed.
+Print Assumptions refines_views.
+
+(* No request crashes: no null dereference, no access outside an allocation, no signed overflow,
+   no overlapping memcpy. *)
+Theorem no_crash : forall h : list op, ops_ok h -> Forall (fun ob => ~ is_crash ob) (run fixed init h).
+Proof. intros h H. exact (proj2 (run_refines_gen h init sinit wf_init Rel_init H)). Qed.
+Print Assumptions no_crash.
+
+(* An accepted request touches only bytes inside the handle's own range [offset, offset+size); a new
+   view lies inside the view it was taken from ("out of range requests raise"), in every reachable state. *)
+Theorem accepted_in_range : forall (h : list op) (o : op) (p : plan), ops_ok h -> op_ok o ->
+  frontend fixed (final fixed init h) o = Ret p ->
+  plan_in_range (parent_of (final fixed init h) o) p.
+Proof.
+  intros h o p Hh Ho E. apply frontend_in_range; auto. apply (wf_final h init sinit wf_init Rel_init Hh).
+Qed.
+Print Assumptions accepted_in_range.
+
+(* ... and a handle's own range lies inside its buffer, so such an access is inside the allocation. *)
+Theorem own_range_in_buffer : forall (h : list op) (i : nat) (m : mem) (bytes off : Z), ops_ok h ->
+  geth (hs (final fixed init h)) i = Some m -> within m bytes off ->
+  0 <= moff m + off /\ moff m + off + bytes <= zlen (getbuf (final fixed init h) (mbuf m)).
+Proof.
+  intros h i m bytes off Hh E W. apply in_range_in_buffer; auto.
+  apply (wf_get _ i m (wf_final h init sinit wf_init Rel_init Hh) E).
+Qed.
+Print Assumptions own_range_in_buffer.
+
+(* A rejected request changes nothing: holds for every variant of the code, every state, every argument. *)
+Theorem rejected_unchanged : forall (c : cfg) (s s' : state) (o : op), step c s o = (s', ERR) -> s' = s.
+Proof. intros c s s' o. apply step_err_unchanged. Qed.
+Print Assumptions rejected_unchanged.
+
+(* A request with an uninitialized handle in an argument position raises, for all arguments (no guard). *)
+Theorem uninit_raises : forall (s : state) (o : op), uses_uninit s o -> step fixed s o = (s, ERR).
+Proof. exact uninit_raises_gen. Qed.
+Print Assumptions uninit_raises.
+
+Ltac solve_ops_ok :=
+  unfold ops_ok; repeat (apply Forall_cons; [cbn [op_ok]; unfold small, dt_ok, ARG, DTMAX; repeat split; try lia |]);
+  apply Forall_nil.
+
+(* ---- non-vacuity: a history that slices, casts, clones, copies host<->device and device<->device *)
+Definition demo : list op :=
+  [ OMallocH 0 16 1 7 false; OSlice 1 0 4 8; OCast 2 1 4; OCopyFromH 2 1 1 100; OCopyToH 0 (-1) 0;
+    OClone 3 0; OCopyFromH 3 (-1) 0 200; OCopyToH 0 4 4; OCopyFromM 0 0 8 2 0; OCopyToH 0 (-1) 0;
+    OSlice 4 1 (-1) 1; OCopyToM 5 0 1 0 0; OCopyToH 2 3 0 ].
+Example demo_ok : ops_ok demo.
+Proof. unfold demo. solve_ops_ok. Qed.
+Example demo_run :
+  run fixed init demo =
+  [ OK; OK; OK; OK;
+    OKB [7; 38; 69; 100; 131; 162; 193; 224; 100; 131; 162; 193; 123; 154; 185; 216];   (* the write through the cast slice is seen through the root *)
+    OK; OK;
+    OKB [131; 162; 193; 224];                                                             (* the write through the clone is not *)
+    OK;
+    OKB [7; 38; 7; 38; 69; 100; 131; 162; 193; 224; 162; 193; 123; 154; 185; 216];        (* overlapping copy = memmove *)
+    ERR; ERR; ERR ].
+Proof. vm_compute. reflexivity. Qed.
+Example demo_spec : s_run sinit demo = run fixed init demo.
+Proof. symmetry. apply refines_views. exact demo_ok. Qed.
+
+(* ---- the pinned code (before fixes/C02-1..6) violates the property: witnesses *)
+
+(* C02-2 (DESIGN 8 #4): a negative offset on a slice of a slice is accepted and reads the parent's bytes *)
+Theorem neg_offset_slice_refuted :
+  let h := [OMallocH 0 16 1 7 false; OSlice 1 0 8 (-1); OSlice 2 1 (-4) 2; OCopyToH 2 (-1) 0] in
+  ops_ok h /\ run pinned init h = [OK; OK; OK; OKB [131; 162]] /\ s_run sinit h = [OK; OK; ERR; ERR].
+Proof. split; [| split]; [solve_ops_ok | vm_compute; reflexivity ..]. Qed.
+
+(* C02-1 (DESIGN 8 #3): a.copyTo(u) / a.copyFrom(u) with u uninitialized dereference null *)
+Theorem uninit_copy_crash_refuted :
+  run pinned init [OMallocH 0 16 1 7 false; OCopyToM 0 1 (-1) 0 0] = [OK; CRASH CNull] /\
+  run pinned init [OMallocH 0 16 1 7 false; OCopyFromM 0 1 (-1) 0 0] = [OK; CRASH CNull].
+Proof. split; vm_compute; reflexivity. Qed.
+
+(* C02-3 (DESIGN 8 #5): copies on an uninitialized `this` return silently *)
+Theorem uninit_this_silent_refuted :
+  run pinned init [OCopyToH 0 (-1) 0; OCopyFromH 0 2 1 9; OCopyToM 0 1 (-1) 0 0] = [OKB []; OK; OK] /\
+  s_run sinit [OCopyToH 0 (-1) 0; OCopyFromH 0 2 1 9; OCopyToM 0 1 (-1) 0 0] = [ERR; ERR; ERR].
+Proof. split; vm_compute; reflexivity. Qed.
+
+(* C02-4: slice / clone of an uninitialized handle return an uninitialized handle silently *)
+Theorem uninit_slice_clone_silent_refuted :
+  run pinned init [OSlice 1 0 0 (-1); OClone 2 0; OSize 1] = [OK; OK; OKN [0; 0; 0]] /\
+  s_run sinit [OSlice 1 0 0 (-1); OClone 2 0; OSize 1] = [ERR; ERR; OKN [0; 0; 0]].
+Proof. split; vm_compute; reflexivity. Qed.
+
+(* C02-5: a source with fewer bytes than one element of its dtype (size() == 0) is skipped silently:
+   a malloc from a 3-byte view typed float has unspecified contents (so has its clone) *)
+Theorem short_source_refuted :
+  let h := [OMallocH 0 16 1 7 false; OSlice 1 0 0 3; OCast 2 1 4; OMallocM 3 3 1 2; OCopyToH 3 (-1) 0] in
+  ops_ok h /\ run pinned init h = [OK; OK; OK; OK; OKB [undef; undef; undef]] /\
+  s_run sinit h = [OK; OK; OK; OK; OKB [7; 38; 69]].
+Proof. split; [| split]; [solve_ops_ok | vm_compute; reflexivity ..]. Qed.
+
+(* C02-6: a device-to-device copy between overlapping views of one buffer is a memcpy with overlap *)
+Theorem overlap_memcpy_refuted :
+  run pinned init [OMallocH 0 16 1 7 false; OCopyFromM 0 0 8 2 0] = [OK; CRASH COverlap].
+Proof. vm_compute; reflexivity. Qed.
+
+(* ---- outside the guard (arguments >= 2^40): the wrapped case, on the repaired code as well.
+   Recorded as known finding huge_arg (docs/notes/C02.known). *)
+
+(* the unsigned product dtypeSize * count wraps: a count of 2^62+1 floats is accepted as 4 bytes *)
+Theorem wrapped_count_accepted :
+  let h := [OMallocH 0 16 1 7 false; OCast 1 0 4; OCopyToH 1 4611686018427387905 0] in
+  run fixed init h = [OK; OK; OKB [7; 38; 69; 100]] /\ s_run sinit h = [OK; OK; ERR].
+Proof. split; vm_compute; reflexivity. Qed.
+
+(* the signed product dtypeSize * offset and the signed sum bytes + offset overflow (undefined behaviour) *)
+Theorem wrapped_overflow_ub :
+  run fixed init [OMallocH 0 16 1 7 false; OCast 1 0 4; OCopyToH 1 1 4611686018427387905] = [OK; OK; CRASH COvf] /\
+  run fixed init [OMallocH 0 16 1 7 false; OCopyToH 0 9223372036854775807 1] = [OK; CRASH COvf].
+Proof. split; vm_compute; reflexivity. Qed.
+
+(* bytes = -1 passes `bytes >= -1`: with a 3-byte dtype, count (2^64-1)/3 and offset 1 are accepted and the
+   backend is asked to copy 2^64-1 bytes *)
+Theorem wrapped_count_out_of_bounds :
+  run fixed init [OMallocH 0 16 1 7 false; OCast 1 0 3; OCopyToH 1 6148914691236517205 1] = [OK; OK; CRASH COob].
+Proof. vm_compute; reflexivity. Qed.
